@@ -107,7 +107,10 @@ def run(ctx):
     explicit = bool(rng.random() < 0.7)
     scaled_prior = prior in ('covariance', 'array')
     choices = [1.0, 2.0 ** -10, 2.0 ** 7, 2.0 ** 14, 2.0 ** 17, 2.0 ** 20] if (scaled_prior or explicit) else [1.0, 1.0, 2.0 ** -10, 2.0 ** 4]
+    tiny = explicit and not scaled_prior and i % 5 == 1      # features in units of 2^-20 (squared distances of the order 1e-12) with bounds in that unit
     units = float(choices[int(rng.integers(0, len(choices)))])
+    if tiny:
+      units = 2.0 ** -20
     data = dict(data)
     data['X'] = data['X'] * units
     ctx.hist('units', units)
@@ -118,7 +121,9 @@ def run(ctx):
       data['pairs_idx'] = np.concatenate([pi, pi[again]])
       data['ypairs'] = np.concatenate([yp, yp[again]])
       ctx.hist('repeated_constraints', True)
-    gam = [0.1, 1.0, 10.0, np.inf, float('inf')][int(rng.integers(0, 5))]   # infinity as numpy's constant and as another float object (e.g. after unpickling)
+    gam = [0.1, 1.0, 10.0, np.inf, float('inf')][int(rng.integers(0, 5))]
+    if tiny and np.isinf(gam):
+      gam = 1.0   # infinity as numpy's constant and as another float object (e.g. after unpickling)
     kw = dict(gamma=gam, max_iter=int(rng.choice([1, 2, 5, 20, 200])),
               prior=prior if prior != 'array' else fits.spd_array(rng, d) / units ** 2,
               random_state=int(rng.integers(0, 100)), tol=float([1e-3, 1e-3, 1e-6, 1e-9][int(rng.integers(0, 4))]))
